@@ -2,6 +2,8 @@ import PhyVerif.Model.C13d
 import PhyVerif.Lemmas.C13
 import PhyVerif.Lemmas.C13c
 import PhyVerif.Lemmas.C04c
+import PhyVerif.Model.C14
+import PhyVerif.Lemmas.C14d
 /-! The link between the directory-level conversion (`convertFS`) and the loader of C04: proofs of
 `convert_output_loads` (statements in `Props/C13.lean`). -/
 namespace PhyVerif.C13.Lemmas
@@ -362,9 +364,62 @@ theorem match_waveforms (label : String) :
   · exact ⟨"templates.waveforms.*.npy", by simp, gm_dotted_labelled_true label hl⟩
 
 
+/-! ### a file of interpreted one-cell rows -/
+
+theorem flatMap_singleton_of {α β} (f : α → List β) (g : α → β) (is : List α) (h : ∀ i ∈ is, f i = [g i]) :
+    is.flatMap f = is.map g := by
+  induction is with
+  | nil => rfl
+  | cons a t ih =>
+    rw [List.flatMap_cons, h a List.mem_cons_self, ih (fun i hi => h i (List.mem_cons_of_mem _ hi))]; rfl
+
+theorem filter_ne_one_of_prod (t : List Nat) (h : t.prod = 1) : t.filter (· != 1) = [] := by
+  induction t with
+  | nil => rfl
+  | cons a t ih =>
+    rw [List.prod_cons] at h
+    have h1 : a = 1 := Nat.eq_one_of_mul_eq_one_right h
+    have h2 : t.prod = 1 := Nat.eq_one_of_mul_eq_one_left h
+    subst h1
+    simpa using ih h2
+
+/-- a file of `n` one-cell rows (`I.cells w i = [l[i]]`, trailing dimensions of product 1) is read as the vector `l` -/
+theorem read_tok_scalar (I : Interp) (w : String) (n : Nat) (l : List Int) (hl : l.length = n)
+    (hI : (I.cells w 0).length = (I.trail w).prod)
+    (hc : ∀ i, i < n → I.cells w i = [.num (l.getD i 0)]) :
+    atleast 1 (squeeze (scrub (arrOf I (fresh (tokRows w n))))) = vec l := by
+  have hd : (tokRows w n).flatMap (rowCells I) = l.map Cell.num := by
+    unfold tokRows
+    rw [List.flatMap_map]
+    rw [flatMap_singleton_of (fun i => rowCells I (Row.tok w i)) (fun i => Cell.num (l.getD i 0)) _
+      (fun i hi => hc i (List.mem_range.1 hi))]
+    apply List.ext_getElem (by simp [hl])
+    intro i h1 h2
+    simp at h1 h2 ⊢
+    simp [List.getElem?_eq_getElem h2]
+  cases n with
+  | zero =>
+    have : l = [] := List.eq_nil_of_length_eq_zero hl
+    subst this
+    rfl
+  | succ k =>
+    have htr : (I.trail w).filter (· != 1) = [] := by
+      apply filter_ne_one_of_prod
+      rw [← hI, hc 0 (by omega)]; rfl
+    have hrt : rowsTrail I (tokRows w (k + 1)) = I.trail w := by
+      simp [tokRows, List.range_succ_eq_map, rowsTrail]
+    have hlen : (tokRows w (k + 1)).length = k + 1 := by simp [tokRows]
+    have hs : scrub ⟨(k + 1) :: I.trail w, l.map Cell.num⟩ = ⟨(k + 1) :: I.trail w, l.map Cell.num⟩ := by
+      simp [scrub]
+    simp only [arrOf, fresh, hd, hrt, hlen, hs, squeeze, Bool.false_eq_true, if_false, List.filter_cons, htr]
+    by_cases hk : k = 0
+    · subst hk; simp [atleast, vec, hl]
+    · have : (k + 1 != 1) = true := by simp; omega
+      simp [this, atleast, vec, hl]
+
 /-! ### the round trip on the output of `convertFS` -/
 
-theorem convert_output_loads (inv : Arr → Arr) (I : Interp) (cfg : Cfg) (v : View) (gen : Nat → String) (src : FDir)
+theorem convert_output_loads_files (inv : Arr → Arr) (I : Interp) (cfg : Cfg) (v : View) (gen : Nat → String) (src : FDir)
     (h : Convertible cfg ⟨src, []⟩) (hv : ViewOK v) (h2 : 2 ≤ v.samples.length)
     (hmono : monotone ((v.times.map I.encQ).map Cell.num) = true)
     (esc est epos : Entry)
@@ -476,8 +531,39 @@ theorem convert_output_loads (inv : Arr → Arr) (I : Interp) (cfg : Cfg) (v : V
   · rw [e4, read_z I et _ (by rw [hTr, hstr]) (by simp; omega)]
 
 
+/-- the round trip with the channel map INTERPRETED: `channels.rawInd` holds `C14.exportRawInd` of the view -/
+theorem convert_output_loads (inv : Arr → Arr) (I : Interp) (cfg : Cfg) (v : View) (gen : Nat → String) (src : FDir)
+    (h : Convertible cfg ⟨src, []⟩) (hv : ViewOK v) (h2 : 2 ≤ v.samples.length)
+    (hmono : monotone ((v.times.map I.encQ).map Cell.num) = true)
+    (hI : ∀ w i, (I.cells w i).length = (I.trail w).prod)
+    (hraw : ∀ i, i < v.channelProbes.length →
+      I.cells "rawInd" i = [.num ((C14.exportRawInd v.channelMap v.channelProbes).getD i 0)])
+    (esc est epos : Entry)
+    (hsc : src.lookup ["spike_clusters", "npy"] = some esc)
+    (hscr : esc.rows = (v.spikeClusters.map Int.ofNat).map Row.z)
+    (hst : src.lookup ["spike_templates", "npy"] = some est)
+    (hstr : est.rows = (v.spikeTemplates.map Int.ofNat).map Row.z)
+    (hpos : src.lookup ["channel_positions", "npy"] = some epos)
+    (hidc : ∀ c ∈ v.spikeClusters, c < 65536) (hidt : ∀ c ∈ v.spikeTemplates, c < 65536) :
+    ∃ lv d', load inv (project I (convertFS cfg v gen ⟨src, []⟩).fs.out) = .ok (lv, d') ∧
+      lv.times = .stored (vec (v.times.map I.encQ)) ∧
+      lv.samples = .file (vec v.samples) ∧
+      lv.spikeClusters = vec (v.spikeClusters.map Int.ofNat) ∧
+      lv.spikeTemplates = vec (v.spikeTemplates.map Int.ofNat) ∧
+      lv.amplitudes = some (squeeze (scrub (arrOf I (fresh (spikeAmps v))))) ∧
+      lv.channelMap = vec (C14.exportRawInd v.channelMap v.channelProbes) ∧
+      lv.channelPositions = atleast 2 (squeeze (scrub (arrOf I epos))) ∧
+      lv.templates = some (zeroNanTemplates (atleast 3 (squeeze
+        (arrOf I (fresh (tokRows "templates.waveforms" v.nTemplates)))))) ∧
+      lv.templateCols = some (squeeze (scrub (arrOf I (fresh (tokRows "templates.waveformsChannels" v.nTemplates))))) := by
+  obtain ⟨lv, d', hl, e1, e2, e3, e4, e5, e6, e7, e8, e9⟩ :=
+    convert_output_loads_files inv I cfg v gen src h hv h2 hmono esc est epos hsc hscr hst hstr hpos hidc hidt
+  refine ⟨lv, d', hl, e1, e2, e3, e4, e5, ?_, e7, e8, e9⟩
+  rw [e6]
+  exact read_tok_scalar I "rawInd" _ _ (by rw [C14.Lemmas.exportRawInd_length]; exact hv.2.2.2.2.symm) (hI _ _) hraw
+
 theorem source_in_samples_exports_seconds (cfg : Cfg) (rate : Rat) (s : List Int) (rest : View) (gen : Nat → String)
-    (fs : FS) (h : Convertible cfg fs) (hr : rate ≠ 0) :
+    (fs : FS) (h : Convertible cfg fs) (hr : 0 < rate) :
     (viewOfFile rate (.inSamples s) rest).samples = s ∧
     (viewOfFile rate (.inSamples s) rest).times = timesOf rate s ∧
     (convertFS cfg (viewOfFile rate (.inSamples s) rest) gen fs).fs.out.lookup
@@ -486,7 +572,7 @@ theorem source_in_samples_exports_seconds (cfg : Cfg) (rate : Rat) (s : List Int
         (labelled' cfg.label ["spikes", "samples", "npy"]) = some (fresh (s.map Row.z)) ∧
     ∀ (i : Nat) (_ : i < s.length), (timesOf rate s).getD i 0 * rate = (s.getD i 0 : Int) := by
   obtain ⟨h1, h2⟩ := export_times_samples cfg (viewOfFile rate (.inSamples s) rest) gen fs h
-  exact ⟨rfl, rfl, h1, h2, (times_in_seconds rate s hr).2⟩
+  exact ⟨rfl, rfl, h1, h2, (times_in_seconds rate s (fun h0 => by rw [h0] at hr; exact absurd hr (by decide))).2⟩
 
 theorem source_in_seconds_exports_verbatim (cfg : Cfg) (rate : Rat) (t : List Rat) (s : Option (List Int)) (rest : View)
     (gen : Nat → String) (fs : FS) (h : Convertible cfg fs) :
